@@ -77,6 +77,8 @@ int main(int argc, char **argv)
 		if (!strcmp(kind, "cert") || !strcmp(kind, "req") || !strcmp(kind, "crl")) {
 			uint8_t iss[512], sub[512], ex[4096], out[16384], *p = out; size_t il, sbl, el = 0, ol = 0; int rc;
 			rc = build_name(iss, &il, sizeof iss, &kv, "i"); if (rc == 1) rc = build_name(sub, &sbl, sizeof sub, &kv, "");
+			SM2_KEY ksub_saved = ksub; int selfs = (int)kv_int(&kv, "self", 0);      // self=1: a self-signed object (subject = issuer, subject key = issuing key)
+			if (selfs) { memcpy(sub, iss, il); sbl = il; ksub = kiss; }
 			if (rc == 1) rc = build_exts(ex, &el, sizeof ex, &kv);
 			time_t nb = tv(&kv, "nb", "nbs"), na = tv(&kv, "na", "nas");
 			uint8_t rev[4096]; size_t rl = 0;
@@ -110,9 +112,15 @@ int main(int argc, char **argv)
 					if (x509_ext_from_der(&xo, nodes, &nn, &xc, &xv, &xvl, &wp, &wl) != 1) walked = -1; else walked++; } vt_int("extwalk", walked); }
 				vt_bytes("exts", pe, pel); vt_bytes("pub", ppk, strcmp(kind, "crl") ? 64 : 0); vt_bytes("revoked", prev, prevl); vt_int("alg1", alg1); vt_int("alg2", alg2); vt_end();
 			}
+			ksub = ksub_saved;
 		} else if (!strcmp(kind, "verify")) {
 			const char *obj = kv_str(&kv, "obj", "cert"); const SM2_KEY *k = !strcmp(kv_str(&kv, "key", "right"), "right") ? (strcmp(obj, "req") ? &kiss : &ksub) : &kother; int rc;
-			if (!strcmp(obj, "cert")) rc = x509_signed_verify(der, dl, k, (char *)sid, sidl);
+			// via=cacert ca=<hex>: the issuer given as a certificate (name and key are taken from it); via=self: the object is its own issuer certificate
+			const char *via = kv_str(&kv, "via", "key"); size_t cal = 0; uint8_t *cader = kv_hex(&kv, "ca", &cal);
+			if (!strcmp(via, "self")) rc = x509_cert_verify_by_ca_cert(der, dl, der, dl, (char *)sid, sidl);
+			else if (!strcmp(via, "cacert")) rc = !strcmp(obj, "crl") ? x509_crl_verify_by_ca_cert(der, dl, cader, cal, (char *)sid, sidl) : x509_cert_verify_by_ca_cert(der, dl, cader, cal, (char *)sid, sidl);
+			else if (!strcmp(via, "signedca")) rc = x509_signed_verify_by_ca_cert(der, dl, cader, cal, (char *)sid, sidl);
+			else if (!strcmp(obj, "cert")) rc = x509_signed_verify(der, dl, k, (char *)sid, sidl);
 			else if (!strcmp(obj, "req")) { if (k == &ksub) rc = x509_req_verify(der, dl, (char *)sid, sidl); else rc = x509_signed_verify(der, dl, k, (char *)sid, sidl); }
 			else rc = x509_signed_verify(der, dl, k, (char *)sid, sidl); // x509_crl_verify is declared but not built; CRLs verify through the generic signed-object check
 			vt_begin("Verify"); vt_int("id", kv_int(&kv, "id", 0)); vt_int("rc", rc); vt_end();
